@@ -53,11 +53,14 @@ def mode_instances(I, repo):
     # vibrational models are built by their own constructors from a vector (of any length) of real wavenumbers nu:
     # what they cache, and under which names, is private
     nu = Elem(D.sym('nu'))
+    saved_order = I.order
+    I.order = RankOrder({'nu': 1}, const_ranks=True)        # real wavenumbers: nu > 0 while the models are built
     out.append(('HarmonicVib', I.construct(repo.cls(SM + '.vib.HarmonicVib'), [], {'vib_wavenumbers': nu},
                                            name='self'), base, 0, True))
     out.append(('QRRHOVib', I.construct(repo.cls(SM + '.vib.QRRHOVib'), [],
                                         {'vib_wavenumbers': nu, 'Bav': D.sym('Bav'), 'v0': D.sym('v0')},
                                         name='self'), base, 0, True))
+    I.order = saved_order
     out.append(('EinsteinVib', mk(SM + '.vib.EinsteinVib'), base, 0, True))
     out.append(('DebyeVib', mk(SM + '.vib.DebyeVib'), base, 0, 'debye'))
     for g in ('monatomic', 'linear', 'nonlinear'):
@@ -103,7 +106,7 @@ def mode_instances(I, repo):
 
 
 def check_modes(run, repo):
-    I = Interp(repo, order=RankOrder({'x': 1, 'b1': 2, 'nu': 1}, const_ranks=True))
+    I = Interp(repo, order=RankOrder({'x': 1, 'b1': 2}, const_ranks=True))
     D = I.D
     T, P = D.sym('T'), D.sym('P')
     n_twin = n_deriv = 0
